@@ -10,13 +10,13 @@ RT = re.compile(r'^wire=(\S+) dec=(H\[.*\] B\[.*\] T\[.*\]) re=(\S+)$')
 def gen(rng, sc, n):
     lines, meta = [], {}
     for i in range(n):
-        mt, items = cc.gen_message(rng, sc)
+        mt, items = cc.gen_message(rng, sc, trailer_plain=0.25)
         l, its = cc.spec_line('rt', mt, items, rng, want_items=True)
         lines.append(l)
         meta[l] = (mt, its)
     # every message type once with every optional field
     for mt, _ in sc['msgs']:
-        mt2, items = cc.gen_message(rng, sc, p_opt=1.0, msgtype=mt)
+        mt2, items = cc.gen_message(rng, sc, p_opt=1.0, msgtype=mt, trailer_plain=0.5)
         l, its = cc.spec_line('rt', mt2, items, rng, want_items=True)
         lines.append(l)
         meta[l] = (mt2, its)
@@ -52,7 +52,7 @@ def make_oracle(sc, meta):
         exp_t = cc.expected_tree(sc, sc['trailer'], [i for i in items if i.sec == 't'])
         hi = d['H'][0]
         ok = (len(hi) >= 3 and hi[0][0] == 8 and hi[0][1] == sc['beginstr'] and hi[1][0] == 9 and hi[2] == (35, mt, None)
-              and hi[3:] == exp_h and d['B'][0] == exp_b and d['T'][0][:-1] == exp_t and d['T'][0][-1][0] == 10
+              and hi[3:] == exp_h and d['B'][0] == exp_b and [x for x in d['T'][0] if x[0] != 10] == exp_t and sum(1 for x in d['T'][0] if x[0] == 10) == 1
               and not d['H'][1] and not d['B'][1] and not d['T'][1] and re_ == wire)
         return (ok, None)
     return oracle
